@@ -2809,7 +2809,7 @@ func (r stack) unmarshalDefault() (slices []any, err error) {
 	for i := 0; i < r.ulen() && err == nil; i++ {
 		slice, _, _ := r.index(i) // auto-skip config
 		var subSlices []any
-		if sub, ok := stackTypeAliasConverter(slice); ok {
+		if sub, ok := stackTypeAliasConverter(slice); ok && sub.IsInit() {
 			// Instance is Stack/Stack alias;
 			// use native unmarshalDefault.
 			if subSlices, err = sub.unmarshalDefault(); err == nil {
